@@ -157,6 +157,8 @@ func c27(c *Ctx) {
 		"diff.LineDiff: rendering compared with the mirror byte for byte, hunks applied by the verified applier. The hunks-apply clause is only " +
 		"evaluated on inputs whose script has no run of more than 14 inserted or deleted lines (longer runs are elided by hunk.add: finding " +
 		c27KnownToken + ", reproduced by fixed cases); on longer runs the rendering is still compared (op ldr) and the script is still judged. " +
+		"A few large instances per run (edit distance 600..1500 after trimming, common blocks far from the centre of the edit graph; sequences through " +
+		"lcs/middle, texts with runs <= 14 through LineDiff, where the number of -/+ lines is also compared with the DP minimum). " +
 		"non-trivial = a and b differ and share at least one element; distinct by case line"
 
 	dir, err := os.MkdirTemp("", "tmh-c27-")
@@ -204,6 +206,9 @@ func c27(c *Ctx) {
 			}
 		}
 	}
+
+	// a few LARGE instances: edit distance well above 512 after trimming, common blocks off-centre
+	c27Large(c)
 
 	m := c.N(1200, 30000)
 	for i := 0; i < m; i++ {
@@ -412,6 +417,128 @@ func c27Mid(c *Ctx, a, b []int) {
 	c.Case(line, ans, key)
 }
 
+// ---- large instances ----
+
+// c27Large: sequences and texts whose minimal edit distance is 600..1500 once the common prefix and
+// suffix are removed, with the common material far from the centre of the edit graph (a search that
+// gives up early or assumes a near-diagonal alignment loses the common blocks).
+func c27Large(c *Ctx) {
+	r := c.Rng
+	fresh := 1000000
+	uniq := func(n int) []int {
+		s := make([]int, n)
+		for i := range s {
+			s[i] = fresh
+			fresh++
+		}
+		return s
+	}
+	block := func(n, k int) []int {
+		s := make([]int, n)
+		for i := range s {
+			if k == 0 {
+				s[i] = fresh
+				fresh++
+			} else {
+				s[i] = r.Intn(k)
+			}
+		}
+		return s
+	}
+	cat := func(parts ...[]int) []int {
+		var ret []int
+		for _, p := range parts {
+			ret = append(ret, p...)
+		}
+		return ret
+	}
+	n := c.N(10, 60)
+	for i := 0; i < n; i++ {
+		var a, b []int
+		shape := ""
+		switch i % 5 {
+		case 0: // block at the end of a, at the start of b
+			B := block(20+r.Intn(60), []int{0, 0, 3}[r.Intn(3)])
+			a = cat(uniq(300+r.Intn(400)), B)
+			b = cat(B, uniq(300+r.Intn(400)))
+			shape = "tail-block/head-block"
+		case 1: // the converse, with a short common prefix and suffix around
+			B := block(20+r.Intn(60), 0)
+			P, S := block(r.Intn(5), 0), block(r.Intn(5), 0)
+			a = cat(P, B, uniq(300+r.Intn(350)), S)
+			b = cat(P, uniq(300+r.Intn(350)), B, S)
+			shape = "head-block/tail-block"
+		case 2: // several common blocks, all in the last third of a and the first third of b
+			var bs [][]int
+			for j := 0; j < 2+r.Intn(4); j++ {
+				bs = append(bs, block(5+r.Intn(25), 0))
+			}
+			a = uniq(350 + r.Intn(300))
+			b = nil
+			for _, B := range bs {
+				a = cat(a, B, uniq(r.Intn(6)))
+				b = cat(b, B, uniq(r.Intn(6)))
+			}
+			b = cat(b, uniq(350+r.Intn(300)))
+			shape = "several off-centre blocks"
+		case 3: // very unbalanced lengths, common block near one corner
+			B := block(10+r.Intn(30), 0)
+			a = cat(uniq(620+r.Intn(500)), B, uniq(r.Intn(10)))
+			b = cat(uniq(r.Intn(10)), B, uniq(20+r.Intn(40)))
+			if r.Intn(2) == 0 {
+				a, b = b, a
+			}
+			shape = "unbalanced"
+		default: // long random sequences over 8 symbols
+			a = block(450+r.Intn(150), 8)
+			b = block(450+r.Intn(150), 8)
+			shape = "random over 8 symbols"
+		}
+		c.Count("large " + shape)
+		c27LCS(c, a, b)
+		// the sub-problem trace hands to middle: without the common prefix and suffix
+		p := 0
+		for p < len(a) && p < len(b) && a[p] == b[p] {
+			p++
+		}
+		q := 0
+		for q < len(a)-p && q < len(b)-p && a[len(a)-1-q] == b[len(b)-1-q] {
+			q++
+		}
+		if len(a)-p-q >= 1 && len(b)-p-q >= 1 {
+			c27Mid(c, a[p:len(a)-q], b[p:len(b)-q])
+		}
+	}
+	// LineDiff level: runs of at most 14 changed lines (so that the hunks clause is evaluated), about
+	// 1100 changed lines in total, common lines of the first text all in its first part and matched
+	// late in the second text
+	nt := c.N(2, 12)
+	for i := 0; i < nt; i++ {
+		run := 9 + r.Intn(6)
+		blocks := 36 + r.Intn(10)
+		var left, right []string
+		for j := 0; j < blocks; j++ {
+			for k := 0; k < run; k++ {
+				left = append(left, fmt.Sprintf("del %d.%d", j, k))
+			}
+			left = append(left, fmt.Sprintf("keep %d", j))
+			right = append(right, fmt.Sprintf("keep %d", j))
+		}
+		for j := 0; j < blocks; j++ {
+			for k := 0; k < run; k++ {
+				right = append(right, fmt.Sprintf("ins %d.%d %%d", j, k))
+			}
+			left = append(left, fmt.Sprintf("tail %d", j))
+			right = append(right, fmt.Sprintf("tail %d", j))
+		}
+		l, rt := strings.Join(left, "\n"), strings.Join(right, "\n")
+		if i%2 == 1 {
+			l, rt = rt, l
+		}
+		c27LD(c, l+"\n", rt+"\n", "large off-centre short runs", false)
+	}
+}
+
 // ---- texts ----
 
 // c27Confusable: groups of lines that differ only by a trailing carriage return, trailing blanks or
@@ -422,6 +549,9 @@ var c27Confusable = [][]string{
 	{"end", "end\r", "END", "end ", "en", "endif"},
 	{"\xc3\xa9", "e\xcc\x81", "\xe9", "\xc3\xa9\r", "e"},
 	{"a b", "a  b", "a\tb", "a b\r", "A B"},
+	// printf / template / escape metacharacters: anything a renderer might interpret
+	{"%d", "%s", "100%", "%%", "%!", "%", "x%", "%v%", "%[1]d", "%!d(MISSING)", "%c%v", "% d", "%-5s|", "%*d"},
+	{"\\", "\\n", "a\\", "\\\\", "\\x41", "$1", "${x}", "{{.}}", "{{end}}", "`", "\"", "'", "&amp;", "<a>"},
 }
 
 // c27ConfusableTexts builds a pair of texts from such groups.
@@ -520,7 +650,8 @@ func c27ConfusableTexts(r *rand.Rand) (left, right, shape string) {
 	return
 }
 
-var c27Alphabet = []string{"a", "b", "c", "", "x y", "@@ -1,1 +1,1 @@", "+a", "-b", " ", "  ... 2 lines skipped ...", "func f() {", "}"}
+var c27Alphabet = []string{"a", "b", "c", "", "x y", "@@ -1,1 +1,1 @@", "+a", "-b", " ", "  ... 2 lines skipped ...", "func f() {", "}",
+	"%d items", "100%", "fmt.Printf(\"%s: %v\\n\", a, b)", "%"}
 
 func c27Texts(r *rand.Rand) (left, right, shape string) {
 	k := 1 + r.Intn(len(c27Alphabet))
@@ -721,7 +852,15 @@ func c27LD(c *Ctx, left, right, shape string, fixed bool) {
 	applies := ok && res == right
 	empty := text == ""
 	line := fmt.Sprintf("ld %s %s %s", hl, hr, hexs([]byte(text)))
-	c.Case(line, fmt.Sprintf("%s applies=%s empty=%s", hexs([]byte(text)), b2s(applies), b2s(empty)), key)
+	changed := 0
+	for _, pl := range strings.Split(text, "\n") {
+		if strings.HasPrefix(pl, "+") || strings.HasPrefix(pl, "-") {
+			changed++
+		}
+	}
+	minChanged := len(a) + len(b) - 2*c27DP(a, b)
+	minimal := changed == minChanged
+	c.Case(line, fmt.Sprintf("%s applies=%s empty=%s minimal=%s", hexs([]byte(text)), b2s(applies), b2s(empty), b2s(minimal)), key)
 	tag := ""
 	if longRun {
 		tag = c27KnownToken + " "
@@ -729,8 +868,17 @@ func c27LD(c *Ctx, left, right, shape string, fixed bool) {
 	if empty != (left == right) {
 		c.Violate("LineDiff output is empty but the texts differ, or non-empty for equal texts", tag+line)
 	} else if !applies {
-		c.Violate(fmt.Sprintf("the hunks of LineDiff(%q, %q) = %q do not apply to the first text to produce the second", left, right, text), tag+line)
+		c.Violate(fmt.Sprintf("the hunks of LineDiff(%q, %q) = %q do not apply to the first text to produce the second", c27Short(left), c27Short(right), c27Short(text)), tag+line)
+	} else if !minimal && !longRun {
+		c.Violate(fmt.Sprintf("LineDiff shows %d changed lines, the minimum is %d", changed, minChanged), line)
 	}
+}
+
+func c27Short(s string) string {
+	if len(s) > 400 {
+		return s[:400] + "…"
+	}
+	return s
 }
 
 func c27Fixed(c *Ctx) {
